@@ -140,7 +140,7 @@ def check(ctx):
     need = ["ld:", "cls:kadpid", "cls:bsblk", "cls:rps", "cls:sub", "cls:msg", "cls:lis", "cls:dia", "nomax:", "pb:kademlia", "pb:bitswap", "pb:identify",
             "pb:noise_payload", "pb:public_key", "pb:peer_id", "pb:multiaddr", "pb:mss_message", "pb:cid", "pb:bitswap_prefix",
             "pb:mss_listener", "pb:mss_dialer", "pb:length_delimited", "pb:payload_size", "pb:substream",
-            "rt:kademlia", "rt:bitswap", "rt:identify", "rt:mss_message"]
+            "rt:mss_sweep", "rt:kademlia", "rt:bitswap", "rt:identify", "rt:mss_message"]
     missing = [k for k in need if not by.get(k)]
     if missing or "hang_near" in summ:
         if "hang_near" not in summ:
